@@ -40,15 +40,53 @@ def _consts(t, acc, seen):
   return acc
 
 
-def _check(hyps, goal, timeout_ms, tactic=None):
+class DictModel:
+  """model read back from the second solver's (get-model) answer"""
+  def __init__(self, vals):
+    self.vals = vals
+
+  def eval(self, v, model_completion=True):
+    x = self.vals.get(v.decl().name(), Fraction(0))
+    if v.sort() == z3.IntSort():
+      return z3.IntVal(int(x))
+    return z3.RealVal(str(x.numerator) + '/' + str(x.denominator))
+
+
+def _check(hyps, goal, timeout_ms, tactic=None, second=True):
   s = z3.Tactic(tactic).solver() if tactic else z3.Solver()
   s.set('timeout', int(timeout_ms))
   s.add(*hyps)
   s.add(z3.Not(goal))
   t0 = time.time()
-  r = str(s.check())
+  from .core import guarded_check, second_opinion
+  r = guarded_check(s, int(timeout_ms))
+  model = s.model() if r == 'sat' else None
+  if r == 'unknown' and second:
+    r2, m2 = second_opinion(s, timeout_s=max(3, int(timeout_ms / 2000)), want_model=True)
+    if r2 == 'unsat':
+      r = 'unsat'
+    elif r2 == 'sat' and m2 is not None:
+      r, model = 'sat', DictModel(m2)
   STATS['solver_s'] += time.time() - t0
-  return r, (s.model() if r == 'sat' else None)
+  return r, model
+
+
+def _sqrt_args():
+  from . import core
+  if core.EX is None:
+    return {}
+  return {k[1]: v[1] for k, v in core.EX.cache.items() if isinstance(k, tuple) and k[0] == 'sqrt_arg'}
+
+
+def _identity_goal(goal):
+  """goal is an equality (or a conjunction of equalities) of real terms that holds as an identity of
+  rational functions modulo the sqrt relations of the path (exact polynomial arithmetic)"""
+  from . import ratpoly
+  if z3.is_and(goal):
+    return goal.num_args() > 0 and all(_identity_goal(c) for c in goal.children())
+  if not (z3.is_eq(goal) and goal.num_args() == 2 and goal.arg(0).sort() == z3.RealSort()):
+    return False
+  return ratpoly.identity_holds(goal.arg(0), goal.arg(1), _sqrt_args())
 
 
 def _syntactic_nonneg_goal(goal):
@@ -79,15 +117,26 @@ def prove(hyps, goal, timeout_ms=60000, tactic=None):
     STATS['proof_unsat'] += 1
     STATS['by_normaliser'] = STATS.get('by_normaliser', 0) + 1
     return 'unsat', None
+  if _identity_goal(goal):
+    STATS['proof_unsat'] += 1
+    STATS['by_normaliser'] = STATS.get('by_normaliser', 0) + 1
+    return 'unsat', None
   if _syntactic_nonneg_goal(goal):
     STATS['proof_unsat'] += 1
     STATS['by_normaliser'] = STATS.get('by_normaliser', 0) + 1
     return 'unsat', None
   if len(hyps) > 3:
     gc = _consts_of(goal)
+    # (1a) hypotheses that talk about the goal's constants only (bounds, sign assumptions)
+    sub0 = [h for h in hyps if _consts_of(h) and _consts_of(h) <= gc]
+    if sub0 and len(sub0) < len(hyps):
+      r, _ = _check(sub0, goal, min(timeout_ms, 5000), tactic, second=False)
+      if r == 'unsat':
+        STATS['proof_unsat'] += 1
+        return 'unsat', None
     sub = [h for h in hyps if _consts_of(h) & gc]
     if len(sub) < len(hyps):
-      r, _ = _check(sub, goal, min(timeout_ms, 8000), tactic)
+      r, _ = _check(sub, goal, min(timeout_ms, 8000), tactic, second=False)
       if r == 'unsat':
         STATS['proof_unsat'] += 1
         return 'unsat', None
